@@ -109,6 +109,14 @@ impl Ctx for RistrettoCtx {
 
     #[inline(always)]
     fn rnd(&self) -> Self::E {
+        #[cfg(strand_verif)]
+        {
+            if let Some(b) = crate::verif_hooks::take_exp_bytes() {
+                return self
+                    .element_from_bytes(&b)
+                    .expect("verif tape: not a ristretto encoding");
+            }
+        }
         let mut rng = StrandRng;
         let mut uniform_bytes = [0u8; 64];
         rng.fill_bytes(&mut uniform_bytes);
@@ -117,6 +125,16 @@ impl Ctx for RistrettoCtx {
     }
     #[inline(always)]
     fn rnd_exp(&self) -> Self::X {
+        #[cfg(strand_verif)]
+        {
+            if let Some(b) = crate::verif_hooks::take_exp_bytes() {
+                let mut le = [0u8; 32];
+                for (i, v) in b.iter().rev().enumerate().take(32) {
+                    le[i] = *v;
+                }
+                return ScalarS(Scalar::from_bytes_mod_order(le));
+            }
+        }
         let mut rng = StrandRng;
         let mut uniform_bytes = [0u8; 64];
         rng.fill_bytes(&mut uniform_bytes);
